@@ -22,6 +22,9 @@ def post_case(draw, heavy=False):
   kinds_st = {"mixed": st.sampled_from(["fifo", "fifo", "lifo"]), "lifo": st.just("lifo"),
               "fifo": st.just("fifo")}[mode]
   posters = [draw(st.lists(kinds_st, min_size=1, max_size=3)) for _ in range(nposters)]
+  if heavy and draw(st.integers(0, 3)) == 0:
+    # long bursts: the posters are still posting while the object works through its steps
+    posters = [draw(st.lists(kinds_st, min_size=15, max_size=40)) for _ in range(nposters)]
   body = draw(st.lists(kinds_st, max_size=2))
   prefill = draw(st.lists(kinds_st, max_size=2))
   total = sum(len(p) for p in posters) + len(body) + len(prefill)
@@ -44,6 +47,8 @@ def post_case(draw, heavy=False):
     pass
   if heavy:
     case["heavy"] = draw(st.sampled_from([0, 0, 1, 497, 498, 499, 500]))
+  # live spy/trace output switched on (not with a pre-filled queue: hundreds of steps of output)
+  case["live"] = draw(st.integers(0, 2)) == 0 and not case["heavy"]
   return case
 
 
@@ -76,6 +81,11 @@ def run_post_case(case, step_limit=400000):
         out["posted"].append(nid)
         getattr(c, "post_" + kind)(Event(signal=VA, payload=nid))
     st_fn = aocheck.flat_chart(rec, on_dispatch=on_dispatch)
+    if case.get("live"):
+      sink = []
+      chart.live_spy = chart.live_trace = True
+      chart.register_live_spy_callback(sink.append)
+      chart.register_live_trace_callback(sink.append)
 
     def on_switch(prev, nxt):
       for p in rec.posts:
